@@ -1,5 +1,7 @@
 -- REGENERATED from src/core/cycle_detector.go by /verif/harness/extract/c06 on every run. Do not edit.
 namespace PlzVerif.Generated.C06
+def accessorDependencies : List String := ["T.mutex.RLock()", "defer T.mutex.RUnlock()", "F1 := make(BuildTargets, 0, len(T.dependencies))", "for _, v01 := range T.dependencies { for _, v02 := range v01.v01 { F1 = append(F1, v02) } }", "sort.Sort(F1)", "return F1"]
+def accessorBuildDependencies : List String := ["T.mutex.RLock()", "defer T.mutex.RUnlock()", "F1 := make(BuildTargets, 0, len(T.dependencies))", "for _, v01 := range T.dependencies { if !v01.runtime && !v01.data && !v01.internal && !v01.source { for _, v02 := range v01.v01 { F1 = append(F1, v02) } } }", "sort.Sort(F1)", "return F1"]
 def persistPre : Bool := false
 def persistPost : Bool := false
 def detectorCollectionFields : List String := []
